@@ -225,11 +225,22 @@ def map_image(mgs, mps, g, p):
 
 
 def map_image_list(mgs, mps, gs, ps):
-    out_g = np.zeros_like(np.asarray(gs))
-    out_p = np.zeros(len(gs), dtype=np.int64)
-    for j in range(len(gs)):
-        out_g[j], out_p[j] = map_image(mgs, mps, gs[j], ps[j])
-    return out_g, out_p
+    """vectorised over the list: conditional table products with the 2N rows of the map, in order
+    X_0, Z_0, X_1, Z_1, ... (Y_k = i X_k Z_k supplies one factor i per Y)."""
+    mgs = np.asarray(mgs).astype(np.int64)
+    gs = np.asarray(gs).astype(np.int64)
+    L = len(gs)
+    N = mgs.shape[0] // 2
+    og = np.zeros((L, 2 * N), dtype=np.int64)
+    op = (np.asarray(ps).astype(np.int64) + (gs[:, 0::2] * gs[:, 1::2]).sum(-1)) % 4
+    for k in range(2 * N):
+        sel = gs[:, k] == 1
+        if not sel.any():
+            continue
+        ng, npp = mul(og, op, mgs[k], int(mps[k]))
+        og = np.where(sel[:, None], ng, og)
+        op = np.where(sel, npp, op)
+    return og, op % 4
 
 
 def map_identity(N):
@@ -663,6 +674,13 @@ def self_test():
         ig, ip = map_image(gs, ps, g, p)
         if not close(V @ dense(g, p) @ V.conj().T, dense(ig, ip)):
             bad.append("map_image vs unitary")
+        Lg = rng.integers(0, 2, (5, 2 * N))
+        Lp = rng.integers(0, 4, 5)
+        vg, vp = map_image_list(gs, ps, Lg, Lp)
+        for j in range(5):
+            sg, sp = map_image(gs, ps, Lg[j], Lp[j])
+            if not (np.array_equal(sg, vg[j]) and sp == vp[j]):
+                bad.append("map_image_list vs map_image")
         igs, ips = map_inverse(gs, ps)
         cg, cp = map_compose(gs, ps, igs, ips)
         eg, ep = map_identity(N)
